@@ -1,4 +1,6 @@
 import AdaVerif.Lemmas.ParseInv
+import AdaVerif.Lemmas.ParseAggBase
+import AdaVerif.Lemmas.ParseValid
 /-
 C19 — Every URL object satisfies the Standard's record invariants.
 
@@ -61,6 +63,36 @@ theorem path_shape (u : Url) (h : u.isOpaque = false) :
 /-- the scheme of every parsed URL is lower-case ASCII -/
 theorem scheme_lowercase (idna : Idna) (input : Bytes) (u : Url) (h : parse idna input none = some u) :
     schemeOk u.scheme = true := schemeOk_of_recinv u (parse_nobase_establishes idna input u h)
+
+/-! ### the objects of the implementation
+
+Through the parser theorems of C01 / C04: whatever `ada::parse` hands out - as an `ada::url` (its fields) or as a
+`url_aggregator` (its buffer and offsets) - is the image of a record of the Standard that satisfies the invariants, whose
+path segments contain no '/', whose user name contains no ':' and whose host does not start with '@'; with a base that was
+itself parsed, too. -/
+open AdaVerif.Model AdaVerif.Lemmas in
+theorem parsed_objects_hold_invariant_records (idna : Idna) (input : Bytes) (hid : ∀ d, HP.IdnaAt idna d)
+    (hclean : HS.bracketClean (ParseSpecial.schemeSpecial input) false (ParseSpecial.hostStart input) = true) :
+    (∀ r, ParseSpecial.parseNoBase idna input = .ok r →
+      ∃ u, r = UR.recOf u ∧ RecInv u = true ∧ PP.NoSlash u.path ∧ PAB.CredHostOk u) ∧
+    (∀ a, ParseAgg.parseNoBaseA idna input = some a →
+      ∃ u, a = Agg.layout (UrlRec.toL (UR.recOf u)) ∧ RecInv u = true ∧ PP.NoSlash u.path ∧ PAB.CredHostOk u) := by
+  have h1 := PS.parseNoBase_spec idna input hid hclean
+  have h2 := PA.parseNoBaseA_eq idna input hid
+  rw [h1] at h2
+  rw [h1, h2]
+  cases hp : parse idna input none with
+  | none =>
+    refine ⟨?_, ?_⟩
+    · intro r h; simp [PS.outOf] at h
+    · intro a h; simp [PS.outOf, PA.aggOf] at h
+  | some u =>
+    have hinv := parse_inv idna input none u (by intro x hx; cases hx) hp
+    have hseg := PV.parse_noSlash idna input u hp
+    have hch := PAB.parse_ch idna input u hp
+    refine ⟨fun r h => ?_, fun a h => ?_⟩
+    · simp only [PS.outOf] at h; injection h with h; exact ⟨u, h.symm, hinv, hseg, hch⟩
+    · simp only [PS.outOf, PA.aggOf] at h; injection h with h; exact ⟨u, h.symm, hinv, hseg, hch⟩
 
 /-! ### non-vacuity: a concrete parse satisfies the hypotheses and the invariant is not trivially true -/
 def noIdna : Idna := ⟨fun _ => none⟩
